@@ -798,6 +798,18 @@ def migrate_v0_to_v1(old_config_dir, skip_confirm=False):
         return None
 
 
+def _write_new_file(path, content):
+    """Create a starter file via a temp file and a rename.
+
+    init keeps every file that already exists, so a starter file left empty or
+    half-written by an interrupted run would never be repaired by running init again.
+    """
+    tmp_path = path + '.tmp'
+    with open(tmp_path, 'w', encoding='utf-8') as f:
+        f.write(content)
+    os.replace(tmp_path, path)
+
+
 def init_config(target_dir):
     """Initialize a new config directory with starter files."""
     import datetime
@@ -818,8 +830,7 @@ def init_config(target_dir):
     # Write settings.yaml
     settings_path = os.path.join(config_dir, 'settings.yaml')
     if not os.path.exists(settings_path):
-        with open(settings_path, 'w', encoding='utf-8') as f:
-            f.write(STARTER_SETTINGS.format(year=current_year))
+        _write_new_file(settings_path, STARTER_SETTINGS.format(year=current_year))
         files_created.append('config/settings.yaml')
     else:
         files_skipped.append('config/settings.yaml')
@@ -827,8 +838,7 @@ def init_config(target_dir):
     # Write merchants.rules (new expression-based format)
     merchants_path = os.path.join(config_dir, 'merchants.rules')
     if not os.path.exists(merchants_path):
-        with open(merchants_path, 'w', encoding='utf-8') as f:
-            f.write(STARTER_MERCHANTS)
+        _write_new_file(merchants_path, STARTER_MERCHANTS)
         files_created.append('config/merchants.rules')
     else:
         files_skipped.append('config/merchants.rules')
@@ -836,8 +846,7 @@ def init_config(target_dir):
     # Write views.rules
     sections_path = os.path.join(config_dir, 'views.rules')
     if not os.path.exists(sections_path):
-        with open(sections_path, 'w', encoding='utf-8') as f:
-            f.write(STARTER_VIEWS)
+        _write_new_file(sections_path, STARTER_VIEWS)
         files_created.append('config/views.rules')
     else:
         files_skipped.append('config/views.rules')
@@ -845,8 +854,7 @@ def init_config(target_dir):
     # Create .gitignore for data privacy
     gitignore_path = os.path.join(target_dir, '.gitignore')
     if not os.path.exists(gitignore_path):
-        with open(gitignore_path, 'w', encoding='utf-8') as f:
-            f.write('''# Tally - Ignore sensitive data
+        _write_new_file(gitignore_path, '''# Tally - Ignore sensitive data
 data/
 output/
 ''')
